@@ -40,7 +40,7 @@ from props import c05
 ID = 'C07'
 COQ_PROP = 'C07'
 LEVEL = 'proof'
-TRANSLATE = ['sql', 'disk', 'persistent', 'format']      # format: Cache.__init__ (a kill while a directory is being opened)
+TRANSLATE = ['sql', 'disk', 'persistent', 'format', 'checkfn', 'fanout']      # format: Cache.__init__ (a kill while a directory is being opened)
 TRUSTED = [
     'SQLite WAL recovery and the release of file locks when a process dies (exercised by every kill point, not proved)',
     'os._exit(137) from the before-hook of the traced event stands for a kill at that instant: Python-level buffers are lost, '
